@@ -100,6 +100,12 @@ func Reevaluate(doc *CReplay) (class, detail string) {
 		}
 		return "acceptance-gate " + stage + ": " + m[4], firstLines(out, 10)
 	}
+	if doc.Kind == "gate" && doc.Stage == "side-effect-import" {
+		if d := droppedBlankImports(b.Dir, doc.Pkg); len(d) > 0 {
+			return fmt.Sprintf("acceptance-gate side-effect-import: side-effect import _ %q of %s is missing in the generated file (%s)", d[0].path, d[0].file, d[0].stage), ""
+		}
+		return "", ""
+	}
 	if doc.Kind == "dead" && doc.Spec != nil {
 		res := b.Run(*doc.Spec)
 		for _, m := range res.Mismatches {
